@@ -170,3 +170,68 @@ def attr_alias_write(ctx, rule, funcs, note=""):
                    f"the object that owns `{src.split('.')[-1]}` is modified", role=f"alias-write:{'.'.join(src.split('.')[-2:])}",
                    line=(bad.lineno if bad is not None else b.lineno))
     return n_bind
+
+
+def shallow_copy_mutation(ctx, rule, rels):
+    """a SHALLOW copy (copy.copy, .copy(), list(..), dict(..), x[:]) shares its elements with the original: the elements must not
+    be modified through the copy (nested item store, attribute store on an element, mutator call on an element)"""
+    ctx.explain(f"{rule}: (shallow copies) where a function binds `y = <shallow copy of x>` it does not modify x's elements through y: no "
+                "store `y[a][b] = ..` / `y[a].attr = ..` / `y[a].append(..)`, and no loop `for e in y:` that assigns to `e.attr` / `e[..]` "
+                "or calls a mutator on e. (Deep copies are what makes `compile()` / the time-domain helpers safe to call on the user's data.)")
+
+    def shallow_src(v):
+        if isinstance(v, ast.Call):
+            fn = dotted(v.func) or ""
+            if fn in ("copy.copy", "copy") and v.args and isinstance(v.args[0], (ast.Name, ast.Attribute)):
+                return dotted(v.args[0])
+            if fn in ("list", "dict", "set", "tuple") and len(v.args) == 1 and isinstance(v.args[0], (ast.Name, ast.Attribute)):
+                return dotted(v.args[0])
+            if isinstance(v.func, ast.Attribute) and v.func.attr == "copy" and not v.args and isinstance(v.func.value, (ast.Name, ast.Attribute)):
+                return dotted(v.func.value)
+        if isinstance(v, ast.Subscript) and isinstance(v.slice, ast.Slice) and v.slice.lower is None and v.slice.upper is None and \
+                isinstance(v.value, (ast.Name, ast.Attribute)):
+            return dotted(v.value)
+        return None
+
+    n = 0
+    for rel in rels:
+        if rel not in ctx.tree.modules:
+            continue
+        for f in ctx.tree.module(rel).functions.values():
+            binds = {}
+            for st in walk_no_nested(f.node):
+                if isinstance(st, ast.Assign) and len(st.targets) == 1 and isinstance(st.targets[0], ast.Name):
+                    s_ = shallow_src(st.value)
+                    if s_:
+                        binds[st.targets[0].id] = (s_, st)
+            for y, (src, bst) in binds.items():
+                n += 1
+                bad = None
+                for m in walk_no_nested(f.node):
+                    if isinstance(m, ast.For) and isinstance(m.iter, ast.Name) and m.iter.id == y and isinstance(m.target, ast.Name):
+                        e = m.target.id
+                        for x in ast.walk(m):
+                            tg = x.targets if isinstance(x, ast.Assign) else [x.target] if isinstance(x, ast.AugAssign) else []
+                            if isinstance(x, ast.Call) and isinstance(x.func, ast.Attribute) and x.func.attr in MUTATORS:
+                                tg = [x.func]
+                            for t_ in tg:
+                                r_ = t_
+                                while isinstance(r_, (ast.Attribute, ast.Subscript)):
+                                    r_ = r_.value
+                                if isinstance(r_, ast.Name) and r_.id == e and t_ is not r_:
+                                    bad = x
+                    tg = m.targets if isinstance(m, ast.Assign) else [m.target] if isinstance(m, ast.AugAssign) else []
+                    extra = 0
+                    if isinstance(m, ast.Call) and isinstance(m.func, ast.Attribute) and m.func.attr in MUTATORS:
+                        tg, extra = [m.func.value], 1
+                    for t_ in tg:
+                        depth, r_ = extra, t_
+                        while isinstance(r_, (ast.Attribute, ast.Subscript)):
+                            depth += 1
+                            r_ = r_.value
+                        if isinstance(r_, ast.Name) and r_.id == y and depth >= 2:
+                            bad = m
+                ctx.ob(rule, f.site, bad is None, "" if bad is None else
+                       f"`{ast.unparse(bst)[:40]}` is a shallow copy and `{ast.unparse(bad)[:50]}` modifies an element it shares with `{src}`",
+                       role="shallow-copy-element-write", line=(bad.lineno if bad is not None else bst.lineno))
+    return n
